@@ -73,8 +73,18 @@ Definition project (c : cproto) (final : hdrs) (out : list devent) (wr : list wr
               | DHead code h _ :: _ => [VZ code; V_hdrs h]
               | _ => [VZ 0; VL []]
               end in
+  (* body offsets at which the underlying writer was flushed, up to the end of the data *)
+  let flushes :=
+    (fix go (l : list devent) (off : Z) (last : option Z) : list Z :=
+       match l with
+       | [] => []
+       | DWrite b :: r => go r (off + Z.of_nat (length b)) last
+       | DFlush :: r => if match last with Some x => x =? off | None => false end then go r off last else off :: go r off (Some off)
+       | DEnd _ :: _ => []
+       | _ :: r => go r off last
+       end) out 0 None in
   VL ([VBool (is_panic res || existsb is_panic wr); Vnat (length heads)] ++ head ++ [VS data; VL ends;
-      VL (map (fun w => VBool (match w with WOk => true | _ => false end)) wr)]).
+      VL (map (fun w => VBool (match w with WOk => true | _ => false end)) wr); VZl flushes]).
 
 Definition run_response : runner := fun suite i =>
   if name_is suite "serve.response" then
